@@ -206,3 +206,78 @@ def value_rule(chk, db, rule_id, fn, kind="V", dims=None):
         n += 1
         chk.ob(rule_id, fn.key + fn.sig, "tensor-product value for num_dimensions = %d" % d, problem is None, fn.where, problem or "", "prod_k %s_k with every factor addressed by its own dimension" % kind)
     return n
+
+
+def fourier_weights_rule(chk, db, rule_id, dims=None):
+    """Fourier differentiation weights: weights[slot * num_dimensions + k] receives tensorw * D_k * prod_{j != k} V_j
+
+    The loop nest over k (and the inner products over j) of GridFourier::getDifferentiationWeights is folded for num_dimensions = 1..4
+    with the per-direction values and derivatives (the two local arrays filled from the two kernels) as symbols."""
+    from tsg.tier import pick
+    dims = dims or pick((1, 2, 3, 4), (1, 2, 3, 4, 5, 6))
+    n = 0
+    for fn in db.fns("TasGrid::GridFourier::getDifferentiationWeights", required=False):
+        chk.saw(fn)
+        loc = fn.locals()
+        # the two per-direction arrays: local std::vector<double> that are filled by calls of local lambdas; the derivative one by the kernel that the value kernel does not feed
+        filled = {}
+        for q in fn.walk():
+            if q.get("k") in ("BinaryOperator",) and q.get("op") == "=":
+                el = ArrayPEval._element(q["c"][0])
+                rhs = strip(q["c"][1])
+                if el is not None and el[0]["did"] in loc and rhs is not None and rhs.get("k") == "CXXOperatorCallExpr" and rhs.get("op") == "()":
+                    tgt = strip([c for c in rhs["c"] if isinstance(c, dict)][1])
+                    if tgt is not None and tgt.get("k") == "DeclRefExpr":
+                        filled[el[0]["did"]] = tgt.get("var") or ""
+        vals = [d for d, k in filled.items() if "diff" not in k]
+        difs = [d for d, k in filled.items() if "diff" in k]
+        wparam = [p_ for p_ in fn.params() if p_["t"].replace(" ", "") == "double*"]
+        if len(vals) != 1 or len(difs) != 1 or len(wparam) != 1:
+            raise NotClosedForm("value / derivative arrays of the Fourier differentiation weights not recognised")
+        # the statement to fold: the outermost loop that reads both arrays and writes the weights
+        loops = [l for l in fn.walk() if l.get("k") == "ForStmt" and any(q.get("k") == "CompoundAssignOperator" and q.get("op") == "+=" and ArrayPEval._element(q["c"][0]) is not None
+                                                                         and ArrayPEval._element(q["c"][0])[0]["did"] == wparam[0]["did"] for q in walk(l))
+                 and not any(q.get("k") == "BinaryOperator" and q.get("op") == "=" and ArrayPEval._element(q["c"][0]) is not None and ArrayPEval._element(q["c"][0])[0]["did"] in (vals[0], difs[0]) for q in walk(l))]
+        if not loops:
+            raise NotClosedForm("accumulation loop of the Fourier differentiation weights not found")
+        lp = min(loops, key=lambda l: len(list(walk(l))))      # innermost such loop = the loop over the derivative direction, with the preceding scalar set-up
+        # statements of the enclosing block from the first one after the arrays are filled up to and including the loop
+        par = next(a for a in fn.ancestors(lp) if a.get("k") == "CompoundStmt")
+        seq = [c for c in par.get("c", []) if isinstance(c, dict)]
+        start = max((i for i, st in enumerate(seq) if any(q.get("k") == "BinaryOperator" and q.get("op") == "=" and ArrayPEval._element(q["c"][0]) is not None
+                                                                 and ArrayPEval._element(q["c"][0])[0]["did"] in (vals[0], difs[0]) for q in walk(st))), default=-1) + 1
+        end = next(i for i, st in enumerate(seq) if st is lp or any(x is lp for x in walk(st)))
+        block = seq[start:end + 1]
+        nd_field = next((q["field"] for q in fn.walk() if q.get("k") == "MemberExpr" and short(q.get("field") or "") == "num_dimensions"), None)
+        T = sympy.Symbol("tensorw", real=True, nonzero=True)
+
+        def hook(q, ev):
+            if q.get("k") == "CXXMemberCallExpr" and short(callee(q) or "") == "getSlot":
+                return sympy.Integer(0)
+            if q.get("k") == "DeclRefExpr" and q.get("var") == "tensorw":
+                return T
+            return None
+        for d in dims:
+            pe = ArrayPEval(db, hook=hook, members={nd_field: sympy.Integer(d)} if nd_field else {})
+            env = {vals[0]: {j: sympy.Symbol("V_%d" % j, real=True, nonzero=True) for j in range(d)},
+                   difs[0]: {j: sympy.Symbol("D_%d" % j, real=True, nonzero=True) for j in range(d)},
+                   wparam[0]["did"]: {j: sympy.Integer(0) for j in range(d)}}
+            problem = None
+            try:
+                pe.inplace(block, env, fn, 0)
+            except NotClosedForm as e:
+                problem = "the accumulation is not foldable: %s" % e
+            if problem is None:
+                for k in range(d):
+                    want = T * sympy.Symbol("D_%d" % k, real=True, nonzero=True)
+                    for j in range(d):
+                        if j != k:
+                            want = want * sympy.Symbol("V_%d" % j, real=True, nonzero=True)
+                    got = env[wparam[0]["did"]].get(k)
+                    if got is None or sympy.expand(got - want) != 0:
+                        problem = "num_dimensions = %d: the weight of direction %d receives %s, the product rule gives %s" % (d, k, got, want)
+                        break
+            n += 1
+            chk.ob(rule_id, fn.key + fn.sig, "product rule of the Fourier differentiation weights for num_dimensions = %d" % d, problem is None, fn.where, problem or "",
+                   "weights[slot * num_dimensions + k] += tensorw * D_k * prod_{j != k} V_j")
+    return n
